@@ -219,10 +219,46 @@ func TestErrorsAtFirstOffendingToken(t *testing.T) {
 			}
 			seps[strayAt] = seps[strayAt] + glue + stray + rapid.SampledFrom([]string{" ", "\n", "\t"}).Draw(t, "afterStray")
 		}
+		longLine := false
+		if rapid.IntRange(0, 7).Draw(t, "longLine") == 0 && len(seps) > 1 {
+			// one physical line of more than 4096 bytes (a comment, or blanks) somewhere in the layout
+			j := rapid.IntRange(0, len(seps)-2).Draw(t, "longAt")
+			n := rapid.SampledFrom([]int{4090, 4200, 5000, 6100}).Draw(t, "longBytes")
+			kind := rapid.IntRange(0, 2).Draw(t, "longKind")
+			mk := func(n int) string {
+				switch kind {
+				case 0:
+					return "// " + strings.Repeat("x", n) + "\n"
+				case 1:
+					return "/* " + strings.Repeat("y", n) + " */"
+				}
+				return strings.Repeat(" ", n)
+			}
+			orig := seps[j]
+			for extra := 0; extra < 8; extra++ {
+				seps[j] = orig + mk(n+extra)
+				probe, _ := ref.Render(toks, seps)
+				hazard := false
+				for _, b := range scanner.Boundaries(probe + "\n") {
+					hazard = hazard || b%4096 == 4095
+				}
+				if !hazard {
+					// outside of the class of the listed dependency finding of C13 (a lexeme that ends at the last byte of a buffer half)
+					longLine = true
+					break
+				}
+			}
+			if !longLine {
+				seps[j] = orig
+			}
+		}
 		text, _ := ref.Render(toks, seps)
 		tail := rapid.SampledFrom(tails).Draw(t, "tail")
 		e, err := checkText(text, tail)
 		cls := []string{"mode_" + mode, "error_" + e.kind}
+		if longLine {
+			cls = append(cls, "line_longer_than_4096_bytes")
+		}
 		nt := (e.kind == "syntax" || e.kind == "lexical") && e.tokIdx > 0 && e.tokIdx < e.nToks-1
 		if strings.HasPrefix(text, "\n") || strings.HasPrefix(text, " ") || strings.HasPrefix(text, "\t") || strings.HasPrefix(text, "/") {
 			cls = append(cls, "leading_layout")
